@@ -26,6 +26,29 @@ Section RunInd.
   Qed.
 End RunInd.
 
+
+(** Layered invariants: a second pre/post pair may rely on a first one that has already been
+    established for every [run n]. *)
+Section RunInd2.
+  Context (K : conf) (P : prog).
+  Variable Pre1 : call -> machine -> Prop.
+  Variable Post1 : call -> machine -> machine -> outcome -> Prop.
+  Variable Pre2 : call -> machine -> Prop.
+  Variable Post2 : call -> machine -> machine -> outcome -> Prop.
+
+  Hypothesis layer1 : forall n, rec_ok Pre1 Post1 (run K P n).
+  Hypothesis step_ok2 : forall rec,
+      rec_ok Pre1 Post1 rec -> rec_ok Pre2 Post2 rec -> rec_ok Pre2 Post2 (step K P rec).
+  Hypothesis fuel_ok2 : forall c m, Pre2 c m -> Post2 c m m OFuel.
+
+  Theorem run_ind2 : forall n, rec_ok Pre2 Post2 (run K P n).
+  Proof.
+    induction n as [|n IH]; intros c m Hpre; cbn [run].
+    - apply fuel_ok2, Hpre.
+    - apply step_ok2; [apply layer1 | exact IH | exact Hpre].
+  Qed.
+End RunInd2.
+
 (** [run] unfolds one step at a time. *)
 Lemma run_S K P n c m : run K P (S n) c m = step K P (run K P n) c m.
 Proof. reflexivity. Qed.
